@@ -79,7 +79,8 @@ Stats& stats();
 // run body(rank) on nranks rank-fibers; returns when all ranks returned.  Exceptions thrown by a
 // rank are rethrown (first one); vs::Deadlock is thrown when no rank can make progress.
 void run(int nranks, const std::function<void(int)> &body);
-int  world_rank();   // rank of the calling fiber in MPI_COMM_WORLD
+int  world_rank();
+std::string where_all();   // what every rank was last doing inside MPI (for deadlock reports)   // rank of the calling fiber in MPI_COMM_WORLD
 }
 #endif
 #endif
